@@ -189,7 +189,7 @@ func Inspect(msg []byte) (q Query, pq dnsmessage.Question, id uint16) {
 }
 
 // Build encodes a response: the echoed question (if any), rcode and answers.
-func Build(id uint16, question *dnsmessage.Question, rcode int, rrs []RR, compress bool) ([]byte, error) {
+func Build(id uint16, question *dnsmessage.Question, rcode int, rrs []RR, compress bool, soa ...*NegSOA) ([]byte, error) {
 	b := dnsmessage.NewBuilder(nil, dnsmessage.Header{ID: id, Response: true, RecursionDesired: true, RecursionAvailable: true, RCode: dnsmessage.RCode(rcode & 0xf)})
 	if compress {
 		b.EnableCompression()
@@ -230,6 +230,24 @@ func Build(id uint16, question *dnsmessage.Question, rcode int, rrs []RR, compre
 			err = errName
 		}
 		if err != nil {
+			return nil, err
+		}
+	}
+	if len(soa) > 0 && soa[0] != nil && question != nil {
+		// negative answer: the SOA of the zone apex (the last label of the name asked) in the authority section
+		if err := b.StartAuthorities(); err != nil {
+			return nil, err
+		}
+		qn := strings.TrimSuffix(question.Name.String(), ".")
+		apex := qn[strings.LastIndexByte(qn, '.')+1:]
+		owner, err := dnsmessage.NewName(apex + ".")
+		if err != nil {
+			return nil, err
+		}
+		ns, _ := dnsmessage.NewName("ns." + apex + ".")
+		mb, _ := dnsmessage.NewName("hostmaster." + apex + ".")
+		h := dnsmessage.ResourceHeader{Name: owner, Class: dnsmessage.ClassINET, TTL: soa[0].TTL}
+		if err := b.SOAResource(h, dnsmessage.SOAResource{NS: ns, MBox: mb, Serial: 1, Refresh: 7200, Retry: 3600, Expire: 86400, MinTTL: soa[0].Minimum}); err != nil {
 			return nil, err
 		}
 	}
@@ -300,7 +318,11 @@ func (s *Server) ServeHTTP(w http.ResponseWriter, req *http.Request) {
 		var rrs []RR
 		rrs, q.Rcode, q.Poisoned = s.zone.Answer(q.Name, q.Type, s.version)
 		q.Answers = len(rrs)
-		if resp, err = Build(id, &pq, q.Rcode, rrs, s.zone.Compress); err != nil {
+		var soa *NegSOA
+		if q.Rcode == 0 && len(rrs) == 0 {
+			soa = s.zone.NegSOA
+		}
+		if resp, err = Build(id, &pq, q.Rcode, rrs, s.zone.Compress, soa); err != nil {
 			// unencodable zone data: a fixture bug, visible to the client as SERVFAIL
 			q.Rcode, q.Answers, q.Poisoned = ServFail, 0, false
 			resp, err = Build(id, &pq, ServFail, nil, false)
